@@ -495,13 +495,23 @@ func (r *runner) opGet(id int, k []byte) {
 func (r *runner) opPut(id int, k, v []byte, viaDao bool) {
 	n := r.w.nodes[id]
 	obs := hx.Safe(func() string {
+		// the caller's buffers are the caller's: it overwrites them right after the call (a store that
+		// kept the slices instead of copying them would now hold garbage)
+		kk, vv := bytes.Clone(k), bytes.Clone(v)
 		if viaDao && bytes.HasPrefix(k, daoPrefix) {
-			n.d.PutStorageItem(daoID, k[len(daoPrefix):], v)
+			n.d.PutStorageItem(daoID, kk[len(daoPrefix):], vv)
 		} else {
-			n.d.Store.Put(k, v)
+			n.d.Store.Put(kk, vv)
+		}
+		for i := range kk {
+			kk[i] ^= 0xa5
+		}
+		for i := range vv {
+			vv[i] ^= 0xa5
 		}
 		return "ok"
 	})
+	r.o.Count("alias:put-buffers-overwritten-after-the-call")
 	if obs == "ok" {
 		n.own[string(k)] = append([]byte{}, v...)
 		if r.plain != nil && id == r.chainTop {
